@@ -1,6 +1,6 @@
 (* C10 proofs about the model Rpc/Invoke.v. *)
 From Coq Require Import List NArith ZArith Bool Arith Lia ZifyBool ZifyNat ZifyN Permutation.
-From TarsV Require Import Gen.Consts Base.Hex Codec.Wire Codec.Skip Codec.Prim Codec.PrimProofs Codec.GenCodec Gen.Schemas
+From TarsV Require Import Gen.Consts Base.Hex Codec.Wire Codec.Skip Codec.Prim Codec.PrimProofs Codec.GenCodec Codec.GenProofs Gen.Schemas
   Frame.Framing Frame.FramingProofs Rpc.Invoke.
 Import ListNotations.
 Open Scope N_scope.
@@ -463,6 +463,89 @@ Proof.
   rewrite hdr_be32 by exact H. f_equal. rewrite app_length. cbn [length FramingProofs.be32]. lia.
 Qed.
 
+(* ---------- complete decoding of replies without payload ---------- *)
+Lemma fuel_shape n : exists f, (4 * n + 64)%nat = S (S (S (S (S (S (S (S (S (S (S (S (S (S (S (S (S (S (S (S f))))))))))))))))))).
+Proof. exists (4 * n + 44)%nat. lia. Qed.
+
+Lemma empty_bytes_member6 f e rest :
+  dec_var (S (S (S (S f)))) e 6 true (TVec TI8) (VBytes [])
+    ((head tSIMPLE 6 ++ head tBYTE 0 ++ w_int32 (Z.of_nat (@length N [])) 0 ++ []) ++ rest) = DOk (VBytes []) rest.
+Proof. reflexivity. Qed.
+Lemma empty_map_member7 f e rest :
+  dec_var (S (S (S (S f)))) e 7 true (TMap TStr TStr) (VMap [])
+    ((head tMAP 7 ++ w_int32 (Z.of_nat (@length (val*val) [])) 0 ++ []) ++ rest) = DOk (VMap []) rest.
+Proof. reflexivity. Qed.
+
+Ltac scalar_step :=
+  cbn [dec_fields ftag freq fty fdef tl];
+  rewrite scalar_member_roundtrip by (first [reflexivity | assumption]).
+
+Lemma rsp_decode p : reply_typed p -> is_tup p = false -> p_buf p = [] -> p_status p = [] -> p_ctx p = [] ->
+  N.of_nat (length (p_desc p)) < 4294967296 ->
+  decode env0 sid_requestf_ResponsePacket (reply_body p) = DOk (rsp_val p) [].
+Proof.
+  intros (Hv & Hp & Hi & Hm & Hr) T Hb Hs Hc Hd.
+  unfold reply_body. rewrite T. unfold decode, decode_into.
+  destruct (fuel_shape (length (encode env0 sid_requestf_ResponsePacket (rsp_val p)))) as (f & ->).
+  unfold rsp_val. rewrite Hb, Hs, Hc.
+  cbn [encode fields_of nth env0 sid_requestf_ResponsePacket schema_requestf_ResponsePacket].
+  cbn [ftag freq fty fdef].
+  match goal with |- context [reset_default ?a ?b ?c ?d] =>
+    replace (reset_default a b c d)
+      with (VStruct [VInt 0; VInt 0; VInt 0; VInt 0; VInt 0; VBytes []; VMap []; VStr []; VMap []]) by reflexivity end.
+  cbn [enc_var negb andb].
+  unfold schema_requestf_ResponsePacket.
+  do 5 scalar_step.
+  cbn [dec_fields ftag freq fty fdef tl].
+  rewrite empty_bytes_member6. rewrite empty_map_member7.
+  destruct (p_desc p) as [|c s] eqn:Ed.
+  - reflexivity.
+  - cbn [scalar_is_default bytes_eqb list_eqb]. cbn [app].
+    rewrite app_nil_r.
+    rewrite <- (app_nil_r (w_scalar TStr (VStr (c :: s)) 8)).
+    rewrite scalar_member_roundtrip by (first [reflexivity | exact Hd]).
+    reflexivity.
+Qed.
+
+Lemma tup_decode p : reply_typed p -> is_tup p = true -> p_buf p = [] -> p_status p = [] -> p_ctx p = [] ->
+  decode env0 sid_requestf_RequestPacket (reply_body p) = DOk (tup_val p) [].
+Proof.
+  intros (Hv & Hp & Hi & Hm & Hr) T Hb Hs Hc.
+  unfold reply_body. rewrite T. unfold decode, decode_into.
+  destruct (fuel_shape (length (encode env0 sid_requestf_RequestPacket (tup_val p)))) as (f & ->).
+  unfold tup_val. rewrite Hb, Hs, Hc.
+  cbn [encode fields_of nth env0 sid_requestf_RequestPacket schema_requestf_RequestPacket].
+  cbn [ftag freq fty fdef].
+  match goal with |- context [reset_default ?a ?b ?c ?d] =>
+    replace (reset_default a b c d)
+      with (VStruct [VInt 0; VInt 0; VInt 0; VInt 0; VStr []; VStr []; VBytes []; VInt 0; VMap []; VMap []]) by reflexivity end.
+  cbn [enc_var negb andb].
+  unfold schema_requestf_RequestPacket.
+  do 4 scalar_step.
+  reflexivity.
+Qed.
+
+Lemma first_i16_body p : reply_typed p -> first_i16 (reply_body p) = Some (p_ver p).
+Proof.
+  intros (Hv & _). unfold first_i16.
+  destruct (is_tup p) eqn:T; [destruct (tup_body_shape p T) as (tail & ->)|destruct (rsp_body_shape p T) as (tail & ->)];
+    rewrite roundtrip_int16 by (first [reflexivity|assumption]); reflexivity.
+Qed.
+
+(* every reply without payload - errors of the implementation, of the dispatcher, queue and handle timeouts, pings -
+   decodes from its bytes to itself (ResponsePacket shape: code and message included), or to itself without code and
+   message (RequestPacket shape of a TUP-versioned reply) *)
+Theorem bodyless_reply_decodes p : reply_typed p -> p_buf p = [] -> p_status p = [] -> p_ctx p = [] ->
+  4 + N.of_nat (length (reply_body p)) < 4294967296 -> N.of_nat (length (p_desc p)) < 4294967296 ->
+  decode_reply (reply_bytes p) = Some (is_tup p, if is_tup p then with_ret p 0 [] else p).
+Proof.
+  intros Ht Hb Hs Hc Hl Hd. unfold decode_reply. rewrite (wire_frame p Hl), N.eqb_refl, skipn4_reply.
+  rewrite (first_i16_body p Ht).
+  destruct (is_tup p) eqn:T.
+  - unfold is_tup in T. rewrite T. rewrite (tup_decode p Ht T Hb Hs Hc). destruct p; reflexivity.
+  - unfold is_tup in T. rewrite T. rewrite (rsp_decode p Ht T Hb Hs Hc Hd). destruct p; reflexivity.
+Qed.
+
 Section Served.
   Variable dispatch : request -> hrun.
   (* codes are Go int32 values *)
@@ -498,6 +581,21 @@ Section Served.
     intros Hr Hc Hv D He Ho W. destruct (error_mapping dispatch cfg r queued e D He Ho W) as [E _].
     eexists. rewrite E. split; [reflexivity|].
     rewrite wire_ret_rsp; [reflexivity| |exact Hv].
+    eapply served_typed; [exact Hr|exact Hc|]. rewrite E. left. reflexivity.
+  Qed.
+
+  (* the error's code and message, decoded from the reply's bytes (every version but TUP); for TUP the bytes decode to a
+     reply without code and message *)
+  Theorem served_error_on_wire cfg r queued e : req_typed r -> codes_typed r ->
+    dispatched r queued = true -> h_res (dispatch r) = HFail e -> overruns dispatch cfg r queued = false -> oneway r = false ->
+    N.of_nat (length (err_msg e)) < 4294967296 ->
+    4 + N.of_nat (length (reply_body (with_ret (base_reply r) (err_code e) (err_msg e)))) < 4294967296 ->
+    exists p, map snd (fst (server_step dispatch cfg r queued)) = [p] /\ p_ret p = err_code e /\ p_desc p = err_msg e /\
+              decode_reply (reply_bytes p) = Some (is_tup p, if is_tup p then with_ret p 0 [] else p).
+  Proof.
+    intros Hr Hc D He Ho W Hm Hl. destruct (error_mapping dispatch cfg r queued e D He Ho W) as [E _].
+    eexists. rewrite E. split; [reflexivity|]. split; [reflexivity|]. split; [reflexivity|].
+    apply bodyless_reply_decodes; try reflexivity; try assumption.
     eapply served_typed; [exact Hr|exact Hc|]. rewrite E. left. reflexivity.
   Qed.
 End Served.
@@ -639,3 +737,8 @@ Example ex_race :
   option_map s_written (hrun_labels ex_req (base_reply ex_req) hinit [LStart; LFire; LReturn; LWake; LWrite]) = Some (Some [base_reply ex_req]) /\
   option_map s_written (hrun_labels ex_req (base_reply ex_req) hinit [LStart; LFire; LWake; LReturn; LWrite]) = Some (Some [handle_timeout_reply ex_req]).
 Proof. vm_compute. split; reflexivity. Qed.
+Example ex_bodyless_hyps :
+  let p := with_ret (base_reply ex_req) 78 (raw "boom"%hex) in
+  reply_typed p /\ p_buf p = [] /\ p_status p = [] /\ p_ctx p = [] /\
+  4 + N.of_nat (length (reply_body p)) < 4294967296 /\ N.of_nat (length (p_desc p)) < 4294967296.
+Proof. vm_compute. repeat split. Qed.
